@@ -93,7 +93,10 @@ func (p *ResetProcessor) resolveReset(node *yaml.Node, path tree.Path) (*yaml.No
 				nodes = append(nodes, resolved)
 			}
 		}
-		node.Content = nodes
+		// an anchored node is resolved once per alias, each at its own path: leave it as it was written
+		resolved := *node
+		resolved.Content = nodes
+		return &resolved, nil
 	case yaml.MappingNode:
 		var key string
 		var nodes []*yaml.Node
@@ -110,7 +113,9 @@ func (p *ResetProcessor) resolveReset(node *yaml.Node, path tree.Path) (*yaml.No
 				}
 			}
 		}
-		node.Content = nodes
+		resolved := *node
+		resolved.Content = nodes
+		return &resolved, nil
 	}
 	return node, nil
 }
